@@ -278,6 +278,16 @@ def check_paths(run, router, keys, quick, samples, distinct):
                     steps.append({"op": "command", "sql": "SET SHARDING KEY TO '%d'" % k}); exp.append(("set_key", oracle(k, n)))
                     steps.append({"op": "command", "sql": "/* sharding_key: %d */ SELECT 1" % k}); exp.append(("comment", oracle(k, n)))
                     steps.append({"op": "route", "sql": "SELECT * FROM %s WHERE %s = %d" % (tb, col, k)}); exp.append(("literal", oracle(k, n)))
+                if k >= 0 and n > 1:
+                    # the key-carrying statement inside a multi-statement simple Query, next to statements that carry no key
+                    # (writes and reads, before and after it), with a DIFFERENT shard selected beforehand
+                    rd = "SELECT * FROM %s WHERE %s = %d" % (tb, col, k)
+                    shapes = ["UPDATE counters SET n = n + 1; %s", "%s; UPDATE counters SET n = n + 1", "SELECT 1; %s", "%s; SELECT now()",
+                              "DELETE FROM audit WHERE ts < now(); SELECT 2; %s", "INSERT INTO audit (what) VALUES ('x'); %s; SELECT 3",
+                              "SELECT * FROM counters FOR UPDATE; %s", "CREATE TEMP TABLE t_x (a int); %s"]
+                    for sj in (ki % len(shapes), (ki * 3 + 1) % len(shapes)):
+                        steps.append({"op": "command", "sql": "SET SHARD TO %d" % ((oracle(k, n) + 1 + ki % (n - 1)) % n)}); exp.append(("set_shard", None))
+                        steps.append({"op": "route", "sql": shapes[sj] % rd}); exp.append(("literal_multi%d" % sj, oracle(k, n)))
                 steps.append({"op": "route", "proto": "P", "sql": "SELECT * FROM %s WHERE %s = $1" % (tb, col)}); exp.append(("parse", None))
                 steps.append({"op": "bind", "hex": bind_msg([str(k).encode()], [])}); exp.append(("bind_text", oracle(k, n)))
                 steps.append({"op": "route", "proto": "P", "sql": "SELECT * FROM %s WHERE %s = $1" % (tb, col)}); exp.append(("parse", None))
